@@ -7,7 +7,8 @@ EXTENDS TLC, Json, IOUtils, Sequences, Naturals
 Rec == ndJsonDeserialize(IOEnv.TRACE)
 VARIABLE l
 TraceInit == l = 1
-Diff(e) == {k \in DOMAIN e.a : e.a[k] # e.b[k]}
+\* keys are per register / per area: two machines whose area lists differ have different key sets, and that is a difference
+Diff(e) == {k \in DOMAIN e.a \cup DOMAIN e.b : k \notin DOMAIN e.a \/ k \notin DOMAIN e.b \/ e.a[k] # e.b[k]}
 Next == /\ l <= Len(Rec)
         /\ LET e == Rec[l] IN IF e.a = e.b THEN TRUE ELSE PrintT(<<"VERDICT", e.sc, e.i, e.pair, Diff(e)>>)
         /\ l' = l + 1
